@@ -211,3 +211,83 @@ Definition eval_block (E : env) (b : base) (prevlvl ru : N) (gs : list (list txn
       end
     end
   end.
+
+(* ------------------------------------------------------------------ panics in TransactionGroup *)
+(* TransactionGroup recovers panics.  Before the commit point ("committing = true") a recovered
+   panic is a clean rejection: the deferred cow.recycle() drops the child and nothing else was
+   written.  From the commit point on -- Payset append, blockTxBytes, the steps of
+   commitToParent, the deferred tracer hook -- eval.state may hold a half-merged group, so the
+   recover handler sets eval.corruptedState and every later TestTransactionGroup /
+   TransactionGroup / GenerateBlock call refuses with ErrEvaluatorCorruptedState.
+   [PLoop i]: a panic while transaction i of the per-transaction loop is evaluated (anywhere in
+   it: the child is dropped as a whole).  [PCommit k]: a panic after the Payset append and after
+   the first k steps of commitToParent:
+     1 MergeAccounts (accounts, asset and app resources)   2 Txids   3 txnCount, feesCollected
+     4 Txleases   5 Creatables   6 sdeltas   7 KvMods (k >= 7: after the whole commit). *)
+Inductive ppoint := PLoop (i : nat) | PCommit (k : nat).
+
+Definition commit_upto (k : nat) (p t : layer) : layer :=
+  let m := merge_layer p t in
+  mkLayer (if Nat.leb 1 k then l_accts m else l_accts p)
+          (if Nat.leb 2 k then l_txids m else l_txids p)
+          (if Nat.leb 4 k then l_leases m else l_leases p)
+          (if Nat.leb 3 k then l_txncount m else l_txncount p)
+          (if Nat.leb 3 k then l_fees m else l_fees p)
+          (if Nat.leb 1 k then l_assets m else l_assets p)
+          (if Nat.leb 5 k then l_creat m else l_creat p)
+          (if Nat.leb 1 k then l_apps m else l_apps p)
+          (if Nat.leb 5 k then l_acreat m else l_acreat p)
+          (if Nat.leb 6 k then l_store m else l_store p)
+          (if Nat.leb 7 k then l_boxes m else l_boxes p).
+
+(* the parent after a commitToParent that was interrupted after k steps (the child is recycled
+   by the deferred call) *)
+Definition partial_commit (k : nat) (c : cow) : cow :=
+  match c_parents c with
+  | [] => c
+  | p :: ps => mkCow (commit_upto k p (c_top c)) ps (c_base c)
+  end.
+
+Definition transaction_group_p (E : env) (ev : evalst) (g : list txn) (lsigfee : N) (pp : option ppoint)
+  : evalst * res unit :=
+  if ev_corrupt ev then (ev, Err E_CORRUPT)
+  else match g with
+       | [] => (ev, Ok tt)
+       | _ =>
+         if p_maxgroup (e_P E) <? N.of_nat (length g) then (ev, Err E_GSIZE)
+         else
+           match pp with
+           | Some (PLoop i) =>
+             if Nat.ltb i (length g) then
+               (* the loop gets as far as transaction i (unless an earlier member fails first) *)
+               match (when (e_validate E) (guard (forallb t_wf g) E_WF) ;;;
+                      group_loop E (first_grp g) (1 <? N.of_nat (length g)) (firstn i g)) (child (ev_cow ev)) with
+               | (c1, Err e) => (mkEval (recycle c1) (ev_payset ev) (ev_corrupt ev), Err e)
+               | (c1, Ok _) => (mkEval (recycle c1) (ev_payset ev) (ev_corrupt ev), Err E_PANIC)
+               end
+             else transaction_group E ev g lsigfee
+           | Some (PCommit k) =>
+             match group_body E g lsigfee (child (ev_cow ev)) with
+             | (c1, Err e) => (mkEval (recycle c1) (ev_payset ev) (ev_corrupt ev), Err e)
+             | (c1, Ok _) =>   (* committing = true; Payset appended; commitToParent interrupted *)
+               (mkEval (partial_commit k c1) (ev_payset ev ++ map t_txid g) true, Err E_PANIC)
+             end
+           | None => transaction_group E ev g lsigfee
+           end
+       end.
+
+(* GenerateBlock as far as this property needs it: it refuses a corrupted evaluator before
+   anything else, otherwise it runs endOfBlock *)
+Definition generate_block (E : env) (ev : evalst) (expired absent : list N) : res evalst :=
+  if ev_corrupt ev then Err E_CORRUPT
+  else match end_block E expired absent 0 0 (ev_cow ev) with
+       | (c2, Ok _) => Ok (mkEval c2 (ev_payset ev) (ev_corrupt ev))
+       | (_, Err e) => Err e
+       end.
+
+(* a sequence of TransactionGroup calls with arbitrary panics *)
+Fixpoint run_calls (E : env) (ev : evalst) (calls : list (list txn * N * option ppoint)) : evalst :=
+  match calls with
+  | [] => ev
+  | (g, lf, pp) :: r => run_calls E (fst (transaction_group_p E ev g lf pp)) r
+  end.
